@@ -455,11 +455,12 @@ def _keygen(func, ignored, /, *args, **kwds):
     if inspect.isfunction(func):
         try: # this is a pretty good filter that: user_args[0] is self
             _bound = getattr(user_args[0], func.__name__)
+            assert inspect.ismethod(_bound) # not a method of a builtin (str.count, ...)
             _self = getattr(_bound, '__self__')
             assert _self == user_args[0]
         except:
             _bound = None
-        if _bound and explicitly_named[0] in ignored:
+        if _bound and explicitly_named and explicitly_named[0] in ignored:
             user_args = user_args[1:]                # remove 'self' instance
             user_kwds.pop(explicitly_named[0], None) #XXX: unnecessary?
             explicitly_named = explicitly_named[1:]  # remove 'self' name
